@@ -122,12 +122,15 @@ def ensure_facts(config, repo=REPO, target_dir=None):
         lock.close()
 
 
-def _prune(keep, n=4):
+def _prune(keep, n=12):
     root = os.path.join(WORK, "facts")
     ds = [d for d in os.listdir(root) if os.path.isdir(os.path.join(root, d)) and d != keep]
     ds.sort(key=lambda d: os.path.getmtime(os.path.join(root, d)))
+    now = time.time()
     for d in ds[:-n] if len(ds) > n else []:
-        shutil.rmtree(os.path.join(root, d), ignore_errors=True)
+        # never remove a fact base another (concurrent) check may still be loading
+        if now - os.path.getmtime(os.path.join(root, d)) > 1800:
+            shutil.rmtree(os.path.join(root, d), ignore_errors=True)
 
 
 def load(config, repo=REPO, target_dir=None):
